@@ -14,7 +14,7 @@ RULE = ("seeded configurations: model {single-instance, top-down (centroid -> cr
         "non-trivial = configuration with eff_scale != 1 or input scale != 1 or stride > 1; distinct by the configuration tuple")
 ASSUMPTIONS = ["the oracle network is part of the trusted base; a frame whose geometry it cannot fit makes the case inconclusive",
                "RGB pipelines (is_rgb=True); keypoints >= 20 px from the border, animals >= 2.6 body sizes apart, nodes of an animal >= 9 px apart",
-               "tolerance per axis in original pixels: (0.5*stride + 0.75)/(input_scale*eff_scale); total up-scaling <= 2.5"]
+               "tolerance per axis in original pixels: (0.5*stride + a)/(input_scale*eff_scale) with a = 0.35 + the explicit integer-size rounding of the resizing steps (vf/e2e.py:tol); total up-scaling <= 2.5"]
 SHARDS = {"quick": 8, "thorough": 16}
 N = {"quick": 96, "thorough": 2200}
 BUDGET = {"quick": 110, "thorough": 1700}
@@ -197,10 +197,9 @@ def check(ctx, case):
 
 def tol_of(case, sf, vids, v, max_hw):
     H, W = vids[v][0], vids[v][1]
-    eff = e2e.eff_scale_for(H, W, max_hw)
     if case["model"] == "single":
-        return on.tolerance(case["stride"], case["scale"], eff)
-    return on.tolerance(case["i_stride"], case["i_scale"], eff)
+        return e2e.tol(case["stride"], H, W, max_hw, case["scale"])
+    return e2e.tol(case["i_stride"], H, W, max_hw, case["i_scale"])
 
 
 def check_records(ctx, case, small, sf, vids, provider, recs, keys, max_hw):
